@@ -219,6 +219,8 @@ def polya_cases(draw):
             "ta": tails() if side in ("A", "both") else [],
             "tt": tails() if side in ("T", "both") else [],
             "clip_a": draw(st.integers(0, 40)), "clip_t": draw(st.integers(0, 40)),
+            # hard clips outside the soft clips (supplementary / trimmed records): they consume nothing
+            "hard_a": draw(st.sampled_from([0, 0, 0, 7, 30])), "hard_t": draw(st.sampled_from([0, 0, 0, 5, 30])),
             "mfte": draw(st.sampled_from([0, 20, 40]))}
 
 
@@ -262,6 +264,8 @@ def eval_polya(case, ctx):
     allb = [(b, k, ch) for b, k, ch in left] + [(b, None, None) for b in body] + [(b, k, ch) for b, k, ch in right]
     cigar = []
     q = ""
+    if case.get("hard_t"):
+        cigar.append((sam.H, case["hard_t"]))
     if case["clip_t"] and left:
         cigar.append((sam.S, case["clip_t"]))
         q += "T" * case["clip_t"]
@@ -290,6 +294,8 @@ def eval_polya(case, ctx):
     if case["clip_a"] and right:
         cigar.append((sam.S, case["clip_a"]))
         q += "A" * case["clip_a"]
+    if case.get("hard_a"):
+        cigar.append((sam.H, case["hard_a"]))
     hdr = pysam.AlignmentHeader.from_dict({"HD": {"VN": "1.6"}, "SQ": [{"SN": "c", "LN": 2 ** 29}]})
     a = pysam.AlignedSegment(hdr)
     a.query_name = "q"
@@ -314,6 +320,26 @@ def eval_polya(case, ctx):
     ex = [tuple(x) for x in info.read_exons]
     trimmed = ex != orig
     ctx.cls("trimmed" if trimmed else "untrimmed")
+    if case.get("hard_a") or case.get("hard_t"):
+        # hard clips consume neither query nor reference: the record without them gives exactly the same result
+        ctx.cls("with_hard_clips")
+        a2 = pysam.AlignedSegment(hdr)
+        a2.query_name = "q"
+        a2.reference_id = 0
+        a2.reference_start = a.reference_start
+        a2.cigartuples = [op for op in cigar if op[0] != sam.H]
+        a2.query_sequence = q
+        info2 = ai.AlignmentInfo(a2)
+        try:
+            info2.add_polya_info(finder, fixer)
+            same = ([tuple(x) for x in info2.read_exons] == ex and vars(info2.polya_info) == vars(info.polya_info) and
+                    (info2.read_start, info2.read_end) == (info.read_start, info.read_end))
+        except Exception:
+            same = False
+        if not same:
+            ctx.violation("C16:hard-clips-change-the-result", {
+                "cigar": [list(x) for x in cigar], "with": [ex, vars(info.polya_info)],
+                "without": [[tuple(x) for x in info2.read_exons], vars(info2.polya_info)]}, case)
     if trimmed:
         ctx.mark_nontrivial(case)
         ctx.sample({"family": "polyA", "cigar": [list(x) for x in cigar], "exons_before": orig, "exons_after": ex,
